@@ -59,6 +59,14 @@ CHECKS = {
     "C18": ("abstract interpretation over abstract strings (terms): message loop of run, parse_u8/parse_ioport, send worker; call-chain facts of the channel plumbing",
             "Two consecutive symbolic lines per batch: the second is always fetched unless the first is cmd:stop; keyword dispatch, pause flag function, "
             "parse rules (3 fields, hex, errors swallowed, no panic), escape order backslash-then-newline + terminator, one write+flush per message.", "4 C18"),
+    "C16": ("abstract interpretation of the three port handlers over array abstractions (symbolic port number and values); cofactor test",
+            "Per bit, all values, all 11 ports: stored DR after DR/DDR/pin events, pin recording, isolation of the port's three cells, invalid ports "
+            "ignored, every step announces DR'&DDR' with the current state count or leaves the driven value unchanged; latch retention refuted by a "
+            "cofactor test (known finding). Arbitrary interleavings are the closure of the step functions (not mechanised).", "4 C16"),
+    "C17": ("abstract interpretation of update_tcr, the accumulation prologue and one generalised tick of update_timer8_0; who-writes-field value sets",
+            "TCR decode tables, phase bound and phase preservation at a clock change, ticks = (residual+states) div divisor / residual mod divisor for "
+            "every divisor, one tick == reference (TCNT+1, selected clear, sticky exact flags, one request per enabled event), exact loop count, only "
+            "TCNT0/TCSR0 stored, no Bus::write re-entry. Partition-equivalence over whole histories follows by telescoping (stated).", "4 C17"),
 }
 
 checks = []
